@@ -237,10 +237,23 @@ def validate_encoding(run, cases=None, tol=1e-9):
             modes=c["modes"], meas_pt=c["meas"], srf_bg_conc=0.7, footprint=c["fp"],
             analytic=c.get("analytic", False), halo=c["halo"], precision="double",
         )
-        g0, c0, f0 = real.solver.steady_state_transport_solver(q, z, prof, c["dom"], c["levels"], **kw)
+        e0 = e1 = None
+        try:
+            g0, c0, f0 = real.solver.steady_state_transport_solver(q, z, prof, c["dom"], c["levels"], **kw)
+        except Exception as e:
+            e0 = type(e).__name__
         sym = Sym(record=False)
         qs = af.const_array(sym.sp, q)
-        g1, c1, f1 = sym.S(qs, z, prof, c["dom"], c["levels"], **kw)
+        try:
+            g1, c1, f1 = sym.S(qs, z, prof, c["dom"], c["levels"], **kw)
+        except Exception as e:
+            e1 = type(e).__name__
+        if e0 or e1:
+            # the code under test raises on this vector: the shim must raise alike
+            if e0 != e1:
+                raise HarnessError("encoding validation: real raises %s, shim raises %s on %s" % (e0, e1, c))
+            run.validation["vectors"] += 1
+            continue
         c1 = af.coeffs(c1, sym.sp)[..., 0].real
         f1 = af.coeffs(f1, sym.sp)[..., 0].real
         for a, b in ((c0, c1), (f0, f1)):
